@@ -1,6 +1,7 @@
 mod checks;
 mod engine;
 mod framework;
+mod par;
 mod rng;
 mod simio;
 mod tw;
@@ -56,6 +57,7 @@ fn main() {
                 "C18" => checks::tworld::run_c18(tier, seed, &known),
                 "C19" => checks::tworld::run_c19(tier, seed, &known),
                 "C20" => checks::tworld::run_c20(tier, seed, &known),
+                "C08" => checks::c08::run(tier, seed, &known),
                 "C10" => checks::c10::run(tier, seed, &known),
                 "C15" => checks::c15::run(tier, seed, &known),
                 _ => {
